@@ -72,6 +72,7 @@ func gen(prop, tier string, r *Rng, out *bufio.Writer, st *Stats) {
 	case "C01":
 		genC01(w, r, tier)
 		genC01Long(w, r, tier)
+		genC01Zeros(w, r, tier)
 		genChLen(g, r, tier, 1)
 	case "C02":
 		genC02(w, r, tier)
@@ -111,6 +112,7 @@ func gen(prop, tier string, r *Rng, out *bufio.Writer, st *Stats) {
 	case "C14":
 		genC14(w, r, tier)
 		genC14Long(w, r, tier)
+		genC14Zeros(w, r, tier)
 	case "C15":
 		genC15(w, r, tier)
 	case "C16":
